@@ -24,7 +24,7 @@ Replace-around steps (last section of lean/Props/C17.lean):
   kept gap.  For partners inside the gap (not part of the search population, whose notion of "separated" uses
   `from`/`to`) the conclusions of `rebase_around_separated` / `commute_replace_around` / `commute_around_nodeStep`
   are checked on the real code: neither step dropped; if all four applications succeed the documents are equal.
-* `gapGuard` (lean/PM/CommuteGuard.lean; guard of the stated, not yet proved `commute_succeeds_around_gap`): for a
+* `gapGuard` (lean/PM/CommuteGuard.lean; guard of `commute_succeeds_around_gap`, proved for slices closed on both sides): for a
   replace / replace-around step strictly inside the gap, "replace_outer descends into an element node lying inside the
   gap" is computed from the real `ResolvedPos` data (`inside_gap` below) and by the model (driver op `gapGuard`),
   compared, and the relational oracle "guard true => the real code's four applications succeed and give equal
